@@ -115,6 +115,10 @@ func (rn *runner) runCase(shapeName string, c *sCase) {
 		}
 	}
 	e.count.states.Add("sound/" + rn.st.Name + "/" + shapeName + "/" + c.Rule)
+	if len(canon) < 400 {
+		e.r.Sample(map[string]any{"sub": "sound", "state": rn.st.Name, "shape": shapeName, "variant": c.Rule, "predicate": wantStr(c.Want), "why": c.Why,
+			"frombytes": res[pathFromBytes].String(), "decodebinary": res[pathDecodeBin].String(), "tx_hex": hex.EncodeToString(canon)})
+	}
 	if !c.NoEnc {
 		base := caseRec{Sub: "encoding", State: rn.st.Name, Rule: c.Rule, Shape: shapeName, Pre: hexs(c.Pre)}
 		rn.encodings(base, canon, res, true)
